@@ -208,6 +208,36 @@ def Cfg.lhsKeep (cfg : Cfg) : Nat := match cfg.writer with | none => 0 | some W 
 /-- first part number of partition `i` (`mpu_write` / `gen_bunch`) -/
 def Cfg.base (cfg : Cfg) (i : Nat) : Nat := cfg.minPart + 1 + i * cfg.wpc
 
+/-! ### how `mpu_write` seeds the partitions of its bags (`_mpu.py`: `mpu_write`, `from_dask_bag`, `gen_bunch`) -/
+
+/-- the empty section one partition starts from, as `gen_bunch` makes it -/
+structure Seed where
+  partId : Nat
+  credits : Nat
+  isFinal : Bool
+  lhsKeep : Nat
+  deriving Repr, DecidableEq
+
+/-- `MPUChunk.gen_bunch(partId, n, writes_per_chunk=wpc, mark_final, lhs_keep)` -/
+def genBunch (partId n wpc : Nat) (markFinal : Bool) (lhsKeep : Nat) : List Seed :=
+  (List.range n).map fun idx => ⟨partId + idx * wpc, wpc, markFinal && decide (idx + 1 = n), lhsKeep⟩
+
+/-- the loop of `mpu_write` over its bags (`nparts` = number of partitions of each bag): `partId` starts at
+`min_part + 1` and advances by `npartitions * writes_per_chunk`; only the last bag may hold the final section
+(`mark_final = mk_footer is None and idx == len(chunks) - 1`); every bag gets the same `lhs_keep`. -/
+def mpuWriteSeedsFrom (cfg : Cfg) (partId : Nat) : List Nat → List (List Seed)
+  | [] => []
+  | n :: rest =>
+    genBunch partId n cfg.wpc (cfg.markFinal && rest.isEmpty) cfg.lhsKeep ::
+      mpuWriteSeedsFrom cfg (partId + n * cfg.wpc) rest
+
+def mpuWriteSeeds (cfg : Cfg) (nparts : List Nat) : List (List Seed) :=
+  mpuWriteSeedsFrom cfg (cfg.minPart + 1) nparts
+
+/-- the seed `eval` gives the partition with global index `i` of `total` -/
+def Cfg.seed (cfg : Cfg) (total i : Nat) : Seed :=
+  ⟨cfg.base i, cfg.wpc, cfg.markFinal && decide (i + 1 = total), cfg.lhsKeep⟩
+
 /-- Evaluate the merge tree whose first partition has global index `idx` of `total`. -/
 def eval (cfg : Cfg) (total : Nat) : Tree α → Nat → Res (Chunk α × List (Part α))
   | .leaf chunks, idx =>
